@@ -1,5 +1,6 @@
 import XModel.MadxThms
 import XModel.MadxParen
+import XModel.MadxPrec
 /-!
 # C19 — MAD-X expressions mean the same deferred as evaluated immediately
 Model: `XModel/Madx.lean`.  `evalI ops false` is `MadxEval` over plain variables (the callbacks are
@@ -9,6 +10,16 @@ By design the two evaluators are ONE recursion with a flag at the division node:
 callbacks building reference nodes which are evaluated later) computes what the immediate path computes node by node
 is C04's subject and Tie A's obligation for `MadxEval` (every grammar alias is bound to the Python operator of the same
 name); `C19_agree` then isolates the only intended difference, the NaN guard.
+
+Parsing.  `C19_full_paren_parse` is the round trip for FULLY parenthesised text (the grammar decides nothing).
+Precedence and associativity of UNparenthesised text are theorems too (`XModel/MadxPrec.lean`):
+`C19_minimal_paren_parse` (the minimal-parentheses printer `render`, which wraps a child iff its grammar level is lower
+than its position requires, is inverted by `parse` on every tree of the parser's range), `C19_left_associative`,
+`C19_precedence`, `C19_two_operator_table`, `C19_unary_minus` (all for arbitrary operands, not examples).  One point is
+contrary to Python and to ordinary notation and is what the grammar `atom: "-" atom`, `power: power "^" atom` says:
+the bare text `-a^b` is `(-a)^b`.  What is NOT covered: the lexer (NUMBER forms, the merge of `**` and `^` into one token)
+is `tokOfJson` in the driver, outside every theorem; there is no derivation relation for the grammar, so "the model
+parser implements the lark grammar" rests on the transcription plus the driver's correspondence with lark's trees.
 -/
 namespace Properties.C19
 open Madx
@@ -25,7 +36,8 @@ theorem C19_div_guard {V : Type} (ops : Ops V) (l r : MTree) (a b : V)
     evalI ops true (.div l r) = .ok ops.nan := by
   simp [evalI, hl, hr, hz, bind, Except.bind]
 
-/- non-vacuity / precedence: unary minus binds tighter than `^`, `^` is left-associative -/
+/- non-vacuity / precedence on two concrete inputs (the general statements are `C19_unary_minus`, `C19_left_associative`):
+   unary minus binds tighter than `^`, `^` is left-associative -/
 #guard (parse [.minus, .num "2", .pow, .num "2"]).isSome
 #guard match parse [.minus, .num "2", .pow, .num "2"] with | some (.pow (.neg (.number "2")) (.number "2")) => true | _ => false
 #guard match parse [.num "2", .pow, .num "3", .pow, .num "2"] with
@@ -42,7 +54,9 @@ theorem C19_full_paren_parse (t : MTree) (h : WFTree t) : parse (fullParen t) = 
     Python arithmetic" is represented by the same evaluator `evalI` on the tree — there is no separate model of Python's
     precedence (`**` right-associative, unary minus below `**`) to compare with; that comparison is made by the oracle
     (`harness/w_madx.py` evaluates the mirrored term with Python itself).  Precedence / associativity of UNparenthesised
-    input is checked by examples (`#guard`) and by the correspondence with lark's tree, not by a theorem. -/
+    input is the subject of `C19_minimal_paren_parse`, `C19_left_associative`, `C19_precedence`, `C19_two_operator_table`
+    and `C19_unary_minus` below (theorems for all operands); the correspondence of the model parser with lark's own tree
+    remains a driver check. -/
 theorem C19_full_paren_value {V : Type} (ops : Ops V) (hd : DivOnly ops) (t : MTree) (h : WFTree t) :
     (parse (fullParen t)).map (evalI ops false) = some (evalI ops false t) ∧
     (evalI ops false t ≠ .error .zeroDiv →
@@ -51,5 +65,192 @@ theorem C19_full_paren_value {V : Type} (ops : Ops V) (hd : DivOnly ops) (t : MT
 
 /-- the trees the theorem speaks about are exactly the parser's outputs -/
 theorem C19_parser_range (t : MTree) : WFTree t ↔ ∃ toks, parse toks = some t := wfTree_iff_parse t
+
+/-! ### precedence and associativity of unparenthesised input -/
+
+/-- **minimal parentheses**: `render t` prints `t` with a child in parentheses iff the child's grammar level (`level`:
+    0 sum, 1 product, 2 power, 3 atom; the unary signs are atoms) is lower than its position requires — left operand of
+    `+ -` any, right `≥ 1`; left operand of `* /` `≥ 1`, right `≥ 2`; left operand of `^` `≥ 2`, right `= 3`; operand of a
+    unary sign `= 3`; call arguments any — and `parse` reads that text back as `t`, for every tree of the parser's range
+    (`WFTree`: calls have at least one argument; needed because `f()` is not in the grammar).  So the grammar's precedence
+    and associativity are exactly this level discipline. -/
+theorem C19_minimal_paren_parse (t : MTree) (h : WFTree t) : parse (render t) = some t :=
+  parse_render t h
+
+/-- the same for every position: `wrapAt k t` (the text of `t` for a position where the grammar expects level `k`:
+    `render t` if `k ≤ level t`, `( render t )` otherwise) is read AT level `k` as `t` — `ReadsAt k w t` says, through the
+    parser's own functions, that after the tokens `w` the loop of level `k` continues with `t` as its left operand
+    (`k = 0, 1, 2`), respectively that `parseAtom` returns `t` and consumes exactly `w` (`k ≥ 3`) -/
+theorem C19_minimal_paren_in_position (t : MTree) (h : WFTree t) (k : Nat) : ReadsAt k (wrapAt k t) t :=
+  readsAt_wrapAt t h k
+
+/-- a text that reads as `t` at some level is parsed as `t` (so `ReadsAt` hypotheses below are about `parse`) -/
+theorem C19_reads_parse {k : Nat} {w : List Tok} {t : MTree} (h : ReadsAt k w t) : parse w = some t :=
+  parse_of_readsAt h
+
+/-- the minimal rendering determines the tree (on the parser's range) -/
+theorem C19_minimal_paren_injective {t t' : MTree} (h : WFTree t) (h' : WFTree t') (heq : render t = render t') :
+    t = t' := render_injective h h' heq
+
+/-- the minimal rendering contains no parenthesis token iff the tree is `Flat`: built from numbers, names and attribute
+    accesses (a call carries its own parentheses) with every child already at the level its position requires -/
+theorem C19_no_paren_iff_flat (t : MTree) : (Tok.lpar ∉ render t ∧ Tok.rpar ∉ render t) ↔ Flat t :=
+  render_noParen_iff t
+
+/-- **left associativity**, all operands: for operators `op`, `op'` of the same grammar level (`+ -`; `* /`; `^ ^`) and
+    well-formed trees `a` (level at least the operators'), `b`, `c` (level strictly higher — in particular any atoms), the
+    unparenthesised text `a op b op' c` is read as `(a op b) op' c`.  The level hypotheses say that the three operand
+    texts are themselves unparenthesised operands of that rule; without them the text means something else
+    (`C19_precedence`). -/
+theorem C19_left_associative (op op' : BinOp) (heq : op.level = op'.level) (a b c : MTree)
+    (wa : WFTree a) (wb : WFTree b) (wc : WFTree c)
+    (ha : op.level ≤ level a) (hb : op.level < level b) (hc : op'.level < level c) :
+    parse (render a ++ op.tok :: (render b ++ op'.tok :: render c)) = some (op'.mk (op.mk a b) c) :=
+  parse_render_left_assoc op op' heq a b c wa wb wc ha hb hc
+
+/-- the five operators spelled out, for arbitrary atom-level operands `b`, `c` (numbers, names, `el->attr`, calls with any
+    arguments, signed atoms) and a power- or atom-level `a` -/
+theorem C19_left_associative_explicit (a b c : MTree) (wa : WFTree a) (wb : WFTree b) (wc : WFTree c)
+    (ha : 2 ≤ level a) (hb : level b = 3) (hc : level c = 3) :
+    parse (render a ++ .plus :: (render b ++ .plus :: render c)) = some (.add (.add a b) c) ∧
+    parse (render a ++ .minus :: (render b ++ .minus :: render c)) = some (.sub (.sub a b) c) ∧
+    parse (render a ++ .star :: (render b ++ .star :: render c)) = some (.mul (.mul a b) c) ∧
+    parse (render a ++ .slash :: (render b ++ .slash :: render c)) = some (.div (.div a b) c) ∧
+    parse (render a ++ .pow :: (render b ++ .pow :: render c)) = some (.pow (.pow a b) c) ∧
+    parse (render a ++ .minus :: (render b ++ .plus :: render c)) = some (.add (.sub a b) c) ∧
+    parse (render a ++ .slash :: (render b ++ .star :: render c)) = some (.mul (.div a b) c) := by
+  have h0 : ∀ op : BinOp, op.level ≤ level a := fun op => by cases op <;> simp [BinOp.level] <;> omega
+  have h1 : ∀ op : BinOp, op.level < level b := fun op => by rw [hb]; cases op <;> simp [BinOp.level]
+  have h2 : ∀ op : BinOp, op.level < level c := fun op => by rw [hc]; cases op <;> simp [BinOp.level]
+  exact ⟨parse_render_left_assoc .add .add rfl a b c wa wb wc (h0 _) (h1 _) (h2 _),
+    parse_render_left_assoc .sub .sub rfl a b c wa wb wc (h0 _) (h1 _) (h2 _),
+    parse_render_left_assoc .mul .mul rfl a b c wa wb wc (h0 _) (h1 _) (h2 _),
+    parse_render_left_assoc .div .div rfl a b c wa wb wc (h0 _) (h1 _) (h2 _),
+    parse_render_left_assoc .pow .pow rfl a b c wa wb wc (h0 _) (h1 _) (h2 _),
+    parse_render_left_assoc .sub .add rfl a b c wa wb wc (h0 _) (h1 _) (h2 _),
+    parse_render_left_assoc .div .mul rfl a b c wa wb wc (h0 _) (h1 _) (h2 _)⟩
+
+/-- n-ary: a chain `a op₁ b₁ … opₙ bₙ` of operators of one level `k`, the operands given as texts with their readings, is
+    the left-nested tree -/
+theorem C19_left_associative_chain (k : Nat) (items : List (BinOp × List Tok × MTree))
+    (h : ∀ it ∈ items, it.1.level = k ∧ ReadsAt (k + 1) it.2.1 it.2.2)
+    {wa : List Tok} {a : MTree} (ha : ReadsAt k wa a) :
+    parse (wa ++ items.flatMap (fun it => it.1.tok :: it.2.1))
+      = some (items.foldl (fun acc it => it.1.mk acc it.2.2) a) :=
+  parse_chain k items h ha
+
+/-- **precedence**, all operands: if `op'` belongs to a higher grammar level than `op` (`* /` above `+ -`, `^` above both),
+    then `a op b op' c` is `a op (b op' c)` and `a op' b op c` is `(a op' b) op c`; the operands are well-formed trees whose
+    levels make their bare renderings operands of the respective rules (any atoms qualify) -/
+theorem C19_precedence (op op' : BinOp) (hlt : op.level < op'.level) (a b c : MTree)
+    (wa : WFTree a) (wb : WFTree b) (wc : WFTree c) :
+    (op.level ≤ level a → op'.level ≤ level b → op'.level < level c →
+      parse (render a ++ op.tok :: (render b ++ op'.tok :: render c)) = some (op.mk a (op'.mk b c))) ∧
+    (op'.level ≤ level a → op'.level < level b → op.level < level c →
+      parse (render a ++ op'.tok :: (render b ++ op.tok :: render c)) = some (op.mk (op'.mk a b) c)) :=
+  ⟨fun ha hb hc => parse_render_prec_right op op' hlt a b c wa wb wc ha hb hc,
+   fun ha hb hc => parse_render_prec_left op op' hlt a b c wa wb wc ha hb hc⟩
+
+/-- spelled out for arbitrary atom-level operands: `a + b * c`, `a * b ^ c`, `a ^ b * c`, `a * b + c`, `a - b ^ c` -/
+theorem C19_precedence_explicit (a b c : MTree) (wa : WFTree a) (wb : WFTree b) (wc : WFTree c)
+    (ha : level a = 3) (hb : level b = 3) (hc : level c = 3) :
+    parse (render a ++ .plus :: (render b ++ .star :: render c)) = some (.add a (.mul b c)) ∧
+    parse (render a ++ .star :: (render b ++ .pow :: render c)) = some (.mul a (.pow b c)) ∧
+    parse (render a ++ .pow :: (render b ++ .star :: render c)) = some (.mul (.pow a b) c) ∧
+    parse (render a ++ .star :: (render b ++ .plus :: render c)) = some (.add (.mul a b) c) ∧
+    parse (render a ++ .minus :: (render b ++ .pow :: render c)) = some (.sub a (.pow b c)) := by
+  have h0 : ∀ op : BinOp, op.level < level a := fun op => by rw [ha]; cases op <;> simp [BinOp.level]
+  have h1 : ∀ op : BinOp, op.level < level b := fun op => by rw [hb]; cases op <;> simp [BinOp.level]
+  have h2 : ∀ op : BinOp, op.level < level c := fun op => by rw [hc]; cases op <;> simp [BinOp.level]
+  exact ⟨parse_render_prec_right .add .mul (by decide) a b c wa wb wc (Nat.le_of_lt (h0 _)) (Nat.le_of_lt (h1 _)) (h2 _),
+    parse_render_prec_right .mul .pow (by decide) a b c wa wb wc (Nat.le_of_lt (h0 _)) (Nat.le_of_lt (h1 _)) (h2 _),
+    parse_render_prec_left .mul .pow (by decide) a b c wa wb wc (Nat.le_of_lt (h0 _)) (h1 _) (h2 _),
+    parse_render_prec_left .add .mul (by decide) a b c wa wb wc (Nat.le_of_lt (h0 _)) (h1 _) (h2 _),
+    parse_render_prec_right .sub .pow (by decide) a b c wa wb wc (Nat.le_of_lt (h0 _)) (Nat.le_of_lt (h1 _)) (h2 _)⟩
+
+/-- **the complete table for two binary operators**: over operand texts that read as atoms (`ReadsAtom w t`: `parseAtom`
+    returns `t` and consumes exactly `w` whatever follows, except `(` and `->` which would extend a name; e.g. rendered
+    atom-level trees, fully parenthesised trees `readsAtom_fullParen`), `a op b op' c` is `a op (b op' c)` if `op'` binds
+    tighter than `op` and `(a op b) op' c` in all other cases -/
+theorem C19_two_operator_table (op op' : BinOp) {wa wb wc : List Tok} {a b c : MTree}
+    (ha : ReadsAtom wa a) (hb : ReadsAtom wb b) (hc : ReadsAtom wc c) :
+    parse (wa ++ op.tok :: (wb ++ op'.tok :: wc))
+      = some (if op.level < op'.level then op.mk a (op'.mk b c) else op'.mk (op.mk a b) c) :=
+  parse_two_ops op op' ha hb hc
+
+/-- **unary minus**, all atom-level operands.  The grammar's `atom: "-" atom` makes the sign part of the atom, so it binds
+    tighter than every binary operator INCLUDING `^`:
+    (1) the bare text `-a^b` is `(-a)^b` — contrary to Python (`-a**b = -(a**b)`) and to ordinary notation; this is what the
+        grammar says and what the model does (immediate value of `-2^2`: `4`, see the `#guard` below);
+    (2) `a^-b` is `a^(-b)` (the right operand of `^` is an atom, and a signed atom is an atom);
+    (3) to write `-(a^b)` the parentheses are needed: they are what `render` prints, and that text is read back as `-(a^b)`;
+    (4) the two trees are different.
+    More generally `-a op b` is `(-a) op b` and `a op -b` is `a op (-b)` for every binary operator. -/
+theorem C19_unary_minus (a b : MTree) (wa : WFTree a) (wb : WFTree b) (ha : level a = 3) (hb : level b = 3) :
+    parse (.minus :: (render a ++ .pow :: render b)) = some (.pow (.neg a) b) ∧
+    parse (render a ++ .pow :: .minus :: render b) = some (.pow a (.neg b)) ∧
+    (render (.neg (.pow a b)) = .minus :: .lpar :: (render a ++ .pow :: render b ++ [.rpar]) ∧
+      parse (.minus :: .lpar :: (render a ++ .pow :: render b ++ [.rpar])) = some (.neg (.pow a b))) ∧
+    MTree.pow (.neg a) b ≠ .neg (.pow a b) ∧
+    (∀ op : BinOp, parse (.minus :: (render a ++ op.tok :: render b)) = some (op.mk (.neg a) b) ∧
+      parse (render a ++ op.tok :: .minus :: render b) = some (op.mk a (.neg b))) := by
+  have ra : ReadsAtom (render a) a := by have := readsAt_render a wa; rwa [ha] at this
+  have rb : ReadsAtom (render b) b := by have := readsAt_render b wb; rwa [hb] at this
+  have hr : render (.neg (.pow a b)) = .minus :: .lpar :: (render a ++ .pow :: render b ++ [.rpar]) := by
+    rw [render_neg, wrapAt_of_lt (show level (.pow a b) < 3 from Nat.lt_succ_self 2),
+      show render (.pow a b) = wrapAt 2 a ++ .pow :: wrapAt 3 b from render_mk .pow a b,
+      wrapAt_of_le (show 2 ≤ level a by omega), wrapAt_of_le (show 3 ≤ level b by omega)]
+  refine ⟨parse_neg_pow ra rb, parse_pow_neg ra.power rb, ⟨hr, ?_⟩, by simp, fun op =>
+    ⟨parse_neg_binop op ra (rb.at _), parse_binop_neg op (ra.at _) rb⟩⟩
+  rw [← hr]
+  exact parse_render _ (by simp only [WFTree]; exact ⟨wa, wb⟩)
+
+section Examples
+/-- a small value algebra over `Int` to make the reading of `-2^2` visible as a value -/
+private def intOps : Ops Int where
+  number := fun s => s.toInt?.getD 0
+  add := fun a b => .ok (a + b)
+  sub := fun a b => .ok (a - b)
+  mul := fun a b => .ok (a * b)
+  div := fun a b => if b = 0 then .error .zeroDiv else .ok (a / b)
+  pow := fun a b => .ok (a ^ b.toNat)
+  neg := fun a => .ok (-a)
+  pos := fun a => .ok a
+  var := fun _ => .error (.other "name")
+  getitem := fun _ _ => .error (.other "name")
+  call := fun _ _ => .error (.other "name")
+  nan := 0
+
+-- `-2^2` is `(-2)^2 = 4` in the model (Python: `-2**2 = -4`); `-(2^2)` is `-4`; `2^3^2` is `(2^3)^2 = 64` (Python: 512)
+#guard match (parse [.minus, .num "2", .pow, .num "2"]).map (evalI intOps false) with
+  | some (.ok 4) => true | _ => false
+#guard match (parse [.minus, .lpar, .num "2", .pow, .num "2", .rpar]).map (evalI intOps false) with
+  | some (.ok (-4)) => true | _ => false
+#guard match (parse [.num "2", .pow, .num "3", .pow, .num "2"]).map (evalI intOps false) with
+  | some (.ok 64) => true | _ => false
+#guard match (parse [.num "7", .minus, .num "2", .minus, .num "1"]).map (evalI intOps false) with
+  | some (.ok 4) => true | _ => false
+
+/-- hypotheses of the theorems are satisfiable on non-trivial operands: a call with a sum argument, a signed attribute
+    access and a number; `f(x+1) - -el->k - 2` is `(f(x+1) - (-el->k)) - 2` -/
+example : parse ([.name "f", .lpar, .name "x", .plus, .num "1", .rpar] ++ Tok.minus ::
+      ([.minus, .name "el", .arrow, .name "k"] ++ Tok.minus :: [.num "2"]))
+    = some (.sub (.sub (.call "f" [.add (.var "x") (.number "1")]) (.neg (.getitem "el" "k"))) (.number "2")) :=
+  (C19_left_associative_explicit (.call "f" [.add (.var "x") (.number "1")]) (.neg (.getitem "el" "k")) (.number "2")
+    (by simp [WFTree, WFArgs]) (by simp [WFTree]) trivial (by decide) rfl rfl).2.1
+
+example : parse [.name "a", .plus, .name "b", .star, .name "c"]
+    = some (.add (.var "a") (.mul (.var "b") (.var "c"))) :=
+  (C19_precedence_explicit (.var "a") (.var "b") (.var "c") trivial trivial trivial rfl rfl rfl).1
+
+example : parse [.minus, .name "a", .pow, .num "2"] = some (.pow (.neg (.var "a")) (.number "2")) :=
+  (C19_unary_minus (.var "a") (.number "2") trivial trivial rfl rfl).1
+
+example : parse (render (.mul (.add (.var "a") (.var "b")) (.neg (.pow (.var "c") (.number "2")))))
+    = some (.mul (.add (.var "a") (.var "b")) (.neg (.pow (.var "c") (.number "2")))) :=
+  C19_minimal_paren_parse _ (by simp [WFTree])
+example : render (.mul (.add (.var "a") (.var "b")) (.neg (.pow (.var "c") (.number "2"))))
+    = [.lpar, .name "a", .plus, .name "b", .rpar, .star, .minus, .lpar, .name "c", .pow, .num "2", .rpar] := rfl
+end Examples
 
 end Properties.C19
